@@ -28,6 +28,9 @@ import (
 	"testing"
 
 	"github.com/lestrrat-go/jwx/v2/jwk"
+	"github.com/lestrrat-go/jwx/v2/jws"
+	"github.com/lestrrat-go/jwx/v2/jwt"
+	nutsJwx "github.com/nuts-foundation/nuts-node/crypto/jwx"
 	"github.com/mr-tron/base58"
 	"github.com/nuts-foundation/go-did/did"
 	"github.com/nuts-foundation/go-did/vc"
@@ -457,6 +460,72 @@ func TestVerifC19(t *testing.T) {
 		env.MarshalJSON()
 		return "ok"
 	}
+	// crypto/jwx.go, modelled part (NutsModel/C19/Jwx.lean): the check order of JWTKidAlg / ParseJWT / ParseJWS; the jwx library's
+	// results are observed independently as data
+	jwxOp := func(in string) {
+		op := map[string]any{"op": "jwx.parse", "input": in, "parseOk": false, "nSigs": 0, "keyOk": false, "algSupported": false, "algFitsKey": false, "verifyJWT": false, "verifyJWS": false}
+		kf := func(kid string) (crypto.PublicKey, error) {
+			if kid == "" {
+				return nil, errors.New("no kid")
+			}
+			return sg.key.Public(), nil
+		}
+		c19Guard(func() string {
+			m, err := jws.ParseString(in)
+			if err != nil {
+				return ""
+			}
+			op["parseOk"], op["nSigs"] = true, len(m.Signatures())
+			if len(m.Signatures()) == 0 {
+				return ""
+			}
+			h := m.Signatures()[0].ProtectedHeaders()
+			alg := h.Algorithm()
+			op["keyOk"] = h.KeyID() != ""
+			op["algSupported"] = nutsJwx.IsAlgorithmSupported(alg)
+			op["algFitsKey"] = nutsJwx.AlgorithmFitsKey(alg, sg.key.Public())
+			if _, err := jwt.ParseString(in, jwt.WithKey(alg, sg.key.Public()), jwt.WithVerify(true)); err == nil {
+				op["verifyJWT"] = true
+			}
+			if _, err := jws.Verify([]byte(in), jws.WithKey(alg, sg.key.Public())); err == nil {
+				op["verifyJWS"] = true
+			}
+			return ""
+		})
+		parsed := op["parseOk"] == true
+		cls := func(err error) string {
+			m := err.Error()
+			switch {
+			case strings.Contains(m, "incorrect number of signatures in JWT") || errors.Is(err, nutsCrypto.ErrorInvalidNumberOfSignatures):
+				return "err:signatures"
+			case m == "no kid":
+				return "err:key"
+			case strings.Contains(m, "token signing algorithm is not supported"):
+				return "err:alg"
+			case strings.Contains(m, "token signing algorithm does not fit the key"):
+				return "err:alg-key"
+			case !parsed:
+				return "err:jws"
+			}
+			return "err:verify"
+		}
+		c19Mark(op)
+		part := func(fn func() error) string {
+			return c19Class(c19Guard(func() string {
+				if err := fn(); err != nil {
+					return cls(err)
+				}
+				return "ok"
+			}))
+		}
+		line := "kidalg=" + part(func() error { _, _, err := nutsCrypto.JWTKidAlg(in); return err }) +
+			" jwt=" + part(func() error { _, err := nutsCrypto.ParseJWT(in, kf); return err }) +
+			" jws=" + part(func() error { _, err := nutsCrypto.ParseJWS([]byte(in), kf); return err })
+		if len(in) > 6000 {
+			op["input"] = c19Short(in, 6000)
+		}
+		o.emit(op, line)
+	}
 	// vcr/credential helpers, modelled part (NutsModel/C19/Cred.lean): ResolveSubjectDID, PresentationSigner (+ ParseLDProof),
 	// PresenterIsCredentialSubject on every presentation go-did parses; library results are observed independently as data
 	credOp := func(in string) {
@@ -557,6 +626,10 @@ func TestVerifC19(t *testing.T) {
 
 	replay, isReplay := c19ReadOps()
 	for _, op := range replay {
+		if op["op"] == "jwx.parse" {
+			in, _ := op["input"].(string)
+			jwxOp(in)
+		}
 		if op["op"] == "cred.presenter" {
 			in, _ := op["input"].(string)
 			credOp(in)
@@ -584,6 +657,9 @@ func TestVerifC19(t *testing.T) {
 		}
 		if ep == "credential.vp" {
 			credOp(in)
+		}
+		if ep == "crypto.ParseJWT" {
+			jwxOp(in)
 		}
 	}
 
@@ -892,6 +968,35 @@ func TestVerifC19(t *testing.T) {
 		run("crypto.ParseJWT", s, "serialisation")
 	}
 
+	{
+		// crypto/jwx.go check order: every algorithm family × kid present/empty/absent under a P-256 key (alg does not fit the key, alg not
+		// supported, no key for the kid), good and bad signatures, JSON serialisations with 0 / 1 / 2 / 3 signatures
+		b64 := base64.RawURLEncoding
+		claims := []byte(`{"iss":"did:web:example.com","exp":4102444800,"nbf":1}`)
+		for _, alg := range []string{`"ES256"`, `"ES384"`, `"ES512"`, `"RS256"`, `"PS256"`, `"PS512"`, `"EdDSA"`, `"ES256K"`, `"HS256"`, `"none"`, `""`, `"es256"`, `5`, `null`, `-`} {
+			for _, kid := range []string{`"k1"`, `""`, `-`, `5`} {
+				h := `{"typ":"JWT"`
+				if alg != "-" {
+					h += `,"alg":` + alg
+				}
+				if kid != "-" {
+					h += `,"kid":` + kid
+				}
+				h += `}`
+				for _, good := range []bool{true, false} {
+					o.dist["jwx.parse:alg-kid-table"]++
+					jwxOp(sg.compact([]byte(h), claims, good))
+				}
+			}
+		}
+		tok := strings.Split(sg.compact([]byte(`{"alg":"ES256","typ":"JWT","kid":"k1"}`), claims, true), ".")
+		sigObj := `{"protected":"` + tok[0] + `","signature":"` + tok[2] + `"}`
+		for _, sigs := range []string{``, sigObj, sigObj + `,` + sigObj, sigObj + `,` + sigObj + `,` + sigObj, `null`, `{}`, sigObj + `,null`, `{"protected":"` + b64.EncodeToString([]byte(`{"alg":"RS256","kid":"k1"}`)) + `","signature":"` + tok[2] + `"},` + sigObj} {
+			o.dist["jwx.parse:signature-count"]++
+			jwxOp(`{"payload":"` + tok[1] + `","signatures":[` + sigs + `]}`)
+		}
+		jwxOp(`{"payload":"` + tok[1] + `","protected":"` + tok[0] + `","signature":"` + tok[2] + `"}`)
+	}
 	// ---- credentials and presentations (JSON-LD and JWT forms)
 	if vpPath(validVP()) != "ok" || vcPath(validVC) != "ok" {
 		t.Fatal("valid VC/VP not accepted")
